@@ -160,6 +160,9 @@ func (e *Engine) stdModel(f *frame, fn *ssa.Function, args []Val, pos token.Pos)
 		e.UsedStd["assumed: "+q+" returns a fresh non-nil error"] = true
 		ref := e.newRef(f.st)
 		return Val{T: fn.Signature.Results().At(0).Type(), C: []*smt.Term{X.Const(uint64(e.tagNamed("*errors.errorString")), 32), X.ZeroExt(32, ref)}}, true
+	case "time.Now":
+		e.UsedStd["assumed: time.Now returns some time value and touches no library memory"] = true
+		return e.freshVal("now", resultType(fn.Signature)), true
 	case "fmt.Sprintf", "fmt.Sprint", "fmt.Sprintln":
 		e.UsedStd["assumed: "+q+" returns some string and touches no library memory"] = true
 		return e.freshVal("sprintf", types.Typ[types.String]), true
